@@ -55,7 +55,7 @@ static void one(Out& out, const std::vector<std::vector<long long>>& keys, long 
     vsched::Config cfg; cfg.seed = seed; cfg.strategy = strat;
     vsched::Result res = vsched::run([&] {
         It ret;
-        TLess cmp;
+        VF_Stateful<TLess> cmp(1);        // armed comparator object: see VF_Stateful
         if (front == 0) ret = stable ? tlx::parallel_multiway_merge_base<true>(seqs.begin(), seqs.end(), target.begin(), L, cmp, m, sa, threads)
                                      : tlx::parallel_multiway_merge_base<false>(seqs.begin(), seqs.end(), target.begin(), L, cmp, m, sa, threads);
         else if (sentinels) ret = stable ? tlx::stable_parallel_multiway_merge_sentinels(seqs.begin(), seqs.end(), target.begin(), L, cmp, m, sa, threads)
